@@ -1,7 +1,87 @@
-(* C17 - placeholder while the proofs are being developed *)
+(* C17 - XML serializer output re-parses to the same namespaced tree.
+   Only statements, closed by [exact], and their assumptions.
+   Model: XmlNs/XSerModel.v (XmlSerializer driven by RcDom's traversal);
+   specification: XmlNs/XSerSpec.v. *)
 From Coq Require Import List NArith Bool.
-From HV Require Import XmlNs.XTreeModel.
+From HV Require Import XmlNs.XTreeModel XmlNs.XSerModel XmlNs.XSerSpec XmlNs.XSerProofs.
 Import ListNotations.
-Example C17_nonvacuous : qname_split [112;58;120]%N = Some 1%nat.
-Proof. vm_compute. reflexivity. Qed.
-Print Assumptions C17_nonvacuous.
+
+(* C17_decl_adequate outside the finding classes: in the serializer's output
+   every prefix used by an element or attribute name is bound to the name's
+   namespace URI by a declaration WRITTEN on that element or an open ancestor
+   (xml / xmlns are bound by definition), unprefixed elements see their own
+   namespace as the default namespace and unprefixed attributes have none -
+   for every document on which the silent registrations (attribute prefixes
+   after the declarations were written, end_elem into the parent's map) are
+   never relied upon and no xmlns="" would be needed ([ser_clean]) *)
+Theorem C17_decl_adequate_outside_finding :
+  forall kids, ser_clean kids = true -> adequate (ser_doc kids) [] = true.
+Proof. exact decl_adequate_outside_finding. Qed.
+Print Assumptions C17_decl_adequate_outside_finding.
+
+(* the three declaration findings of DESIGN 6.3 row 10, on the model of the code as it is *)
+Theorem C17_decl_adequate_refuted :
+  adequate (ser_doc wA) [] = false /\ adequate (ser_doc wB) [] = false /\ adequate (ser_doc wC) [] = false.
+Proof. exact decl_adequate_refuted. Qed.
+Print Assumptions C17_decl_adequate_refuted.
+
+(* C17_escape_reversible: what write_to_buf_escaped writes for a text node /
+   an attribute value is read back unchanged by the Data / double-quoted
+   attribute value states (predefined entities, CR LF normalisation), for every
+   string without CR and U+0000 ... *)
+Theorem C17_escape_reversible_text :
+  forall s rest, no_cr_nul s = true ->
+  lex_text (S (length (escape false s ++ 60 :: rest))) (escape false s ++ 60 :: rest) = Some (s, 60 :: rest)%N.
+Proof. exact escape_text_reversible. Qed.
+Print Assumptions C17_escape_reversible_text.
+
+Theorem C17_escape_reversible_attr :
+  forall s rest, no_cr_nul s = true ->
+  lex_attr_value (S (length (escape true s ++ 34 :: rest))) (escape true s ++ 34 :: rest) = Some (s, rest).
+Proof. exact escape_attr_reversible. Qed.
+Print Assumptions C17_escape_reversible_attr.
+
+(* ... and not for CR (DESIGN 6.3 row 10): "\r" comes back as "\n" *)
+Theorem C17_escape_refuted_cr :
+  lex_text 3 (escape false [13] ++ [60])%N = Some ([10], [60])%N.
+Proof. exact escape_text_refuted_cr. Qed.
+Print Assumptions C17_escape_refuted_cr.
+
+(* the ghost-instrumented serializer used to describe the finding classes is
+   the serializer: same items *)
+Theorem C17_instrumentation_is_erasable :
+  forall l st ph, length ph = length st ->
+  fst (fst (fst (ser_nodes_g l st ph))) = fst (ser_nodes l st).
+Proof. exact ser_nodes_g_erase. Qed.
+Print Assumptions C17_instrumentation_is_erasable.
+
+(* C17_roundtrip_partial.  Full statement (NOT proved as a theorem):
+     forall x, let t := tree (parse x) in
+       t outside the finding classes -> tree (parse (serialize t)) = t.
+   Proved: the two lemmas above (every name is adequately declared; text and
+   attribute values are escaped reversibly) for all trees outside the classes,
+   and C16 (Props/C16.v: the tree builder resolves exactly what is declared).
+   Missing: (1) the composition "adequately declared + lexical-scope resolver
+   => the re-built tree is the same tree" by induction over the builder's run
+   on the serializer's token stream (tested on every generated tree by the
+   check through [roundtrip_tok], see evidence: model_roundtrip_expected);
+   (2) the XML tokenizer's lexing of tags, attributes, comments and PIs of the
+   serializer's output (tied by the item-denotation correspondence only).
+   What IS proved about the round trip are the refutations: the token-level
+   re-parse of the model's own output loses the three witness trees. *)
+Theorem C17_roundtrip_refuted :
+  roundtrip_tok wA = false /\ roundtrip_tok wB = false /\ roundtrip_tok wC = false.
+Proof. exact roundtrip_refuted. Qed.
+Print Assumptions C17_roundtrip_refuted.
+
+Theorem C17_witnesses_are_in_the_classes :
+  ser_clean wA = false /\ ser_clean wB = false /\ ser_clean wC = false /\ ser_clean wD = true.
+Proof. exact witnesses_not_clean. Qed.
+Print Assumptions C17_witnesses_are_in_the_classes.
+
+(* non-vacuity: a namespaced tree with a prefixed attribute, nested use of the
+   prefix and escaped characters is clean, adequately declared and survives the
+   token-level round trip (a TEST by vm_compute, not a proof of the round trip) *)
+Example C17_nonvacuous :
+  ser_clean ex_tree = true /\ adequate (ser_doc ex_tree) [] = true /\ roundtrip_tok ex_tree = true.
+Proof. exact ex_tree_ok. Qed.
